@@ -60,7 +60,8 @@ def rule_r1(ck, prog, S):
     lc = c13.nondecimal_letter_classes(prog, S, LexModel(prog, S)) or {}
     letters = {}
     cls_of = {}
-    for cls, (bs, rec) in lc.items():
+    for cls, ent_ in lc.items():
+        bs, rec = ent_[0], ent_[1]
         key = K.enum_name(prog, "_scpi_token_type_t", cls)
         letters[key] = bs or set()
         cls_of[key] = cls
